@@ -1101,6 +1101,10 @@ class FunctionAnalysis(BaseDomain):
                 self.emit('order', e, {'op': type(op).__name__, 'left': vals[i], 'right': vals[i + 1],
                                        'left_node': ([e.left] + e.comparators)[i],
                                        'right_node': e.comparators[i]})
+            elif isinstance(op, (ast.Eq, ast.NotEq)):
+                self.emit('equal', e, {'op': type(op).__name__, 'left': vals[i], 'right': vals[i + 1],
+                                       'left_node': ([e.left] + e.comparators)[i],
+                                       'right_node': e.comparators[i]})
         return VBOOL
 
     def ev_BinOp(self, e, env):
